@@ -164,6 +164,28 @@ func (f *FS) log(op Op) {
 	f.Log = append(f.Log, op)
 }
 
+// NameOfObj maps the object name passed to Hook ("ino:<id>[:suffix]") to the (smallest) path of that
+// inode, "" if it has none (unlinked) or the object is the directory table.
+func (f *FS) NameOfObj(obj string) string {
+	if !strings.HasPrefix(obj, "ino:") {
+		return ""
+	}
+	id := 0
+	for _, ch := range obj[4:] {
+		if ch < '0' || ch > '9' {
+			break
+		}
+		id = id*10 + int(ch-'0')
+	}
+	best := ""
+	for n, x := range f.files {
+		if x.ID == id && (best == "" || n < best) {
+			best = n
+		}
+	}
+	return best
+}
+
 func inoObj(in *Inode) string { return fmt.Sprintf("ino:%d", in.ID) }
 
 func (f *FS) nameOf(in *Inode) string {
@@ -654,6 +676,17 @@ func (f *FS) Clone() *FS {
 		ni.Nlink++
 		c.files[n] = ni
 	}
+	return c
+}
+
+// SubImage returns a new file system holding copies of the files directly in dir, placed in directory as.
+func (f *FS) SubImage(dir, as string) *FS {
+	c := New()
+	dir = clean(dir)
+	for _, n := range f.NamesIn(dir) {
+		c.SetBytes(as+"/"+n, append([]byte(nil), f.Bytes(dir+"/"+n)...))
+	}
+	c.dirs[clean(as)] = true
 	return c
 }
 
